@@ -39,6 +39,10 @@ def check(run, repo, world):
 
     # ---- QueryDeviceTypes -------------------------------------------------
     m, fn, _ = world.func(MOD + ".QueryDeviceTypes")
+    # a poll loop counted up to a bound no ascending run of bytes can reach
+    # (R-MONO bounds the passes at 254) reads as the unbounded loop
+    from ..normal import unbound_counted_poll_loops
+    fn = unbound_counted_poll_loops(fn, 256)
     fn = normalise(fn, world, MOD, lift_values=True)
     Q = MOD + ".QueryDeviceTypes"
     cfg = gen_cfg(fn, Q)
